@@ -61,6 +61,8 @@ def unit_RxOrder():
       * receiverLoop / dispatcherLoop : the loop bodies of the two thread functions (wait / clear / stoptest / target|drain)
       * byteQueueLocked : for `append`, `pop`, `pop_byte`, `clear`: does every statement that touches `self._buffer` sit inside
                           `with self._buffer_lock:` ?
+      * dispatchQueueCtor : the constructor expression of the dispatch queue (the model's queue is unbounded: `queue.Queue()`; with a bound
+                            `queue_block`'s blocking `put` stops the receiver thread, which is also the only thread that sends)
       * popTakesExactlySize : the body of `ByteQueue.pop` is exactly `with lock: data = self._buffer[:size]; del self._buffer[:size]; return data`
     """
     tree = G.parse("common/protocol.py")
@@ -87,6 +89,16 @@ def unit_RxOrder():
             raise G.P.Untranslatable(f"queue_block: unrecognised statement `{ast.unparse(st)[:80]}`")
     rloop = _loop_tags(dcls, "_receiver_thread_function", "_receiver_thread_trigger")
     dloop = _loop_tags(dcls, "_dispatcher_thread_function", "_dispatcher_thread_trigger")
+
+    dinit = next((i for i in dcls.body if isinstance(i, ast.FunctionDef) and i.name == "__init__"), None)
+    qctor = None
+    for n in ast.walk(dinit) if dinit else []:
+        if isinstance(n, (ast.Assign, ast.AnnAssign)):
+            tgt = n.targets[0] if isinstance(n, ast.Assign) else n.target
+            if G.P.dotted(tgt) == "self._dispatch_queue" and n.value is not None:
+                qctor = ast.unparse(n.value)
+    if qctor is None:
+        raise G.P.Untranslatable("ProtocolDispatcher.__init__: no assignment to self._dispatch_queue")
 
     bcls = G.find_class(G.parse("common/byte_queue.py"), "ByteQueue")
     locked = []
@@ -123,10 +135,12 @@ def unit_RxOrder():
            "def byteQueueLocked : List (String × Bool) := [" + ", ".join(f'("{n}", {"true" if b else "false"})' for n, b in locked) + "]\n",
            "/-- `ByteQueue.pop` is exactly: under the lock, `data = self._buffer[:size]; del self._buffer[:size]; return data` -/",
            f"def popTakesExactlySize : Bool := {'true' if pop_exact else 'false'}\n",
+           "/-- the expression `ProtocolDispatcher.__init__` assigns to `self._dispatch_queue` -/",
+           'def dispatchQueueCtor : String := "' + qctor.replace("\\", "\\\\").replace('"', '\\"') + '"\n',
            "end SecsModel.Gen.RxOrder\n"]
     G.write("RxOrder", "\n".join(out))
     G.FACTS["RxOrder"] = {"onData": tags, "queueBlock": qtags, "receiverLoop": rloop, "dispatcherLoop": dloop,
-                          "byteQueueLocked": locked, "popTakesExactlySize": pop_exact}
+                          "byteQueueLocked": locked, "popTakesExactlySize": pop_exact, "dispatchQueueCtor": qctor}
 
 
 def unit_HsmsGuards():
